@@ -44,7 +44,7 @@ func freshCommitHash(pcs []*types.Vote) []byte {
 
 // verifyCommitIndependently re-verifies a commit signature by signature: every vote carried must be a precommit of
 // `height`, all of one round, signed by the validator of its slot; validators holding more than 2/3 of the power
-// must have signed exactly blockID.  It does not call ValidatorSet.VerifyCommit.
+// must have signed exactly blockID; index and address of a vote must be those of its slot.  It does not call ValidatorSet.VerifyCommit.
 func verifyCommitIndependently(vals *types.ValidatorSet, chainID string, blockID types.BlockID, height int64, commit *types.Commit) (ps []problem, round int64, relabelled int) {
 	add := func(k, f string, a ...interface{}) { ps = append(ps, problem{k, fmt.Sprintf(f, a...)}) }
 	round = -1
@@ -84,7 +84,10 @@ func verifyCommitIndependently(vals *types.ValidatorSet, chainID string, blockID
 			continue
 		}
 		if pc.ValidatorIndex != idx || !bytes.Equal(pc.ValidatorAddress, val.Address) {
+			// index and address are not covered by the signature; a stored commit is fed to VoteSet.AddVote later
 			relabelled++
+			add("commit-label", "slot %d holds a vote labelled validator %d / %X", idx, pc.ValidatorIndex, pc.ValidatorAddress)
+			continue
 		}
 		if blockID.Equals(pc.BlockID) {
 			tally += val.VotingPower
